@@ -537,13 +537,9 @@ func (tdsChan *Channel) NextPackageUntil(ctx context.Context, wait bool, process
 			// to prevent any leftovers that may impact later
 			// communications.
 			if ok, _ := isDoneFinal(pkg); !ok {
-				_, err := tdsChan.NextPackageUntil(ctx, wait, nil)
-				// Append any additional received EEDPackages to the
-				// EEDError.
-				var finalEEDError *EEDError
-				if err != nil && errors.As(err, &finalEEDError) {
-					eedError.EEDPackages = append(eedError.EEDPackages, finalEEDError.EEDPackages...)
-				}
+				// Any additional received EEDPackages are appended to
+				// the EEDError.
+				tdsChan.consumePayload(ctx, eedError)
 			}
 
 			err = fmt.Errorf("tds: error in user-defined processing function: %w", err)
@@ -559,6 +555,35 @@ func (tdsChan *Channel) NextPackageUntil(ctx context.Context, wait bool, process
 
 		if ok {
 			return pkg, nil
+		}
+	}
+}
+
+// consumePayload consumes the packages of the current payload up to the
+// DonePackage{TDS_DONE_FINAL} and adds the EEDPackages it meets to
+// eedError. It ends early if one of the contexts is closed or an error
+// is received.
+func (tdsChan *Channel) consumePayload(ctx context.Context, eedError *EEDError) {
+	for {
+		if ctx != nil && ctx.Err() != nil {
+			return
+		}
+		if tdsChan.tdsConn.ctx.Err() != nil {
+			return
+		}
+
+		pkg, err := tdsChan.NextPackage(ctx, true)
+		if err != nil {
+			return
+		}
+
+		if eed, ok := pkg.(*EEDPackage); ok {
+			eedError.Add(eed)
+			continue
+		}
+
+		if ok, _ := isDoneFinal(pkg); ok {
+			return
 		}
 	}
 }
